@@ -94,6 +94,9 @@ structure Cfg where
   timeoutRemoves : Bool     -- the timeout path removes the entry
   cancelRemoves : Bool      -- dropping the call future removes the entry (guard `Drop`)
   writeErrRemoves : Bool    -- a failed write removes the entry
+  -- premises of the model's shape (asserted true in Props/C04, C06; not branched on by `step`):
+  matchRemoves : Bool := true     -- the reader *removes* the entry it matched (`pending.remove(&id)`)
+  readerStops : Bool := true      -- the reader loop ends (`break`) after `fail_all_pending`
 deriving DecidableEq, Repr
 
 structure State where
